@@ -68,6 +68,10 @@ def cases(tier, seed, rng):
     for r in range(rounds):
         out.append(Case(['id_race exec 8 %d' % rng.choice([30, 100, 200])], 'gen:race-exec'))
         out.append(Case(['id_new 5', 'id_race fork %d %d' % (rng.choice([4, 8]), rng.choice([30, 100])), 'id_new 5'], 'gen:race-fork'))
+        # a pre-fork worker pool: a freshly started process forks its workers BEFORE it has created an id itself
+        out.append(Case(['id_race pool %d %d' % (rng.choice([3, 6]), rng.choice([30, 100]))], 'gen:race-pool'))
+        # a chain of forks: every generation creates an id, forks the next one, and then all of them race
+        out.append(Case(['id_new 2', 'id_race tree %d %d' % (rng.choice([3, 4]), rng.choice([30, 60]))], 'gen:race-tree'))
     return out
 
 def nontrivial(case, tags):
